@@ -124,14 +124,14 @@ def run_time_cases(cases, zone, mode, frontend="wsgi"):
     w = World(frontend=frontend, prefix="/")
     out = []
     try:
-        assert w.request("MKCALENDAR", "/user/calendars/t/").status == 201
+        assert w.request("MKCALENDAR", "/user/calendars/t/").status in range(200, 300)
         stored = {}
         for i, t in enumerate(cases):
             c = t["c"]
             name = "c%04d.ics" % i
             data = time_case_ics(sc, c, "case-%d-%s-%s" % (i, zone or "utc", mode))
             r = w.request("PUT", "/user/calendars/t/" + name, [("Content-Type", "text/calendar")], data)
-            stored[i] = r.status in (201, 204)
+            stored[i] = r.status in range(200, 300)
         got = {}
         errs = {}
         datas = {}
@@ -231,7 +231,7 @@ def filter_xml(f):
 def run_filter_cases(table, frontend="wsgi"):
     w = World(frontend=frontend, prefix="/")
     try:
-        assert w.request("MKCALENDAR", "/user/calendars/f/").status == 201
+        assert w.request("MKCALENDAR", "/user/calendars/f/").status in range(200, 300)
         objs = []
         for t in table:
             key = repr(sorted((c["kind"], c["summary"], c["att"]) for c in t["obj"]))
@@ -240,7 +240,7 @@ def run_filter_cases(table, frontend="wsgi"):
                 name = "o%03d.ics" % (len(objs) - 1)
                 r = w.request("PUT", "/user/calendars/f/" + name, [("Content-Type", "text/calendar")],
                               obj_ics(t["obj"], "obj-%d" % (len(objs) - 1)))
-                assert r.status in (201, 204), (r.status, r.body[:300])
+                assert r.status in range(200, 300), (r.status, r.body[:300])
         cache = {}
         out = []
         for t in table:
@@ -282,7 +282,7 @@ def run_freebusy_cases(cases, frontend="wsgi"):
                 data = time_case_ics(sc, c, "fb-%d" % k).replace(
                     b"SUMMARY:case", ("SUMMARY:case\r\nTRANSP:%s\r\nSTATUS:%s" % (transp, status)).encode())
                 r = w.request("PUT", p + "e.ics", [("Content-Type", "text/calendar")], data)
-                if r.status not in (201, 204):
+                if r.status not in range(200, 300):
                     continue
                 body = ('<?xml version="1.0"?><C:free-busy-query %s><C:time-range start="%s" end="%s"/>'
                         '</C:free-busy-query>' % (NS, sc.utc(2), sc.utc(4))).encode()
